@@ -132,7 +132,7 @@ type CMSOptions struct {
 	Hash crypto.Hash // digest algorithm (default SHA-256)
 	// Encapsulated: when non-nil these bytes are the eContent (adbe.pkcs7.sha1: SHA-1 of
 	// the byte ranges) and the signature binds them; when nil the SignedData is detached.
-	Encapsulated []byte
+	Encapsulated  []byte
 	NoSignedAttrs bool       // sign the content directly (only sensible with Encapsulated)
 	ESSv2         bool       // add signing-certificate-v2 (CAdES baseline B)
 	SigningTime   *time.Time // add signing-time
@@ -147,6 +147,13 @@ type CMSParts struct {
 	MsgDigest   [2]int // the digest bytes inside the message-digest attribute
 	Signature   [2]int // signature value bytes
 	Imprint     [2]int // ETSI.RFC3161: the document hash inside TSTInfo.messageImprint
+}
+
+// ecdsaFixedLen is the most frequent DER length of a signature with k (both integers of full
+// size, one of them with a leading zero octet).
+func ecdsaFixedLen(k *ecdsa.PrivateKey) int {
+	n := (k.Curve.Params().BitSize + 7) / 8
+	return 2 + (2 + n) + (2 + n) + 1
 }
 
 func hashOf(h crypto.Hash, b []byte) []byte {
@@ -205,7 +212,14 @@ func SignCMS(content []byte, key crypto.Signer, cert *x509.Certificate, o CMSOpt
 		sig, err = rsa.SignPKCS1v15(nil, k, o.Hash, h)
 	case *ecdsa.PrivateKey:
 		sigAlg = derSeq(ecdsaOID(o.Hash))
-		sig, err = ecdsa.SignASN1(rand.Reader, k, h)
+		// An ECDSA signature's DER length varies (70..72 bytes on P-256); the harness wants file
+		// layouts that depend on nothing but the seed, so it re-signs until the common length comes up.
+		for try := 0; try < 200; try++ {
+			sig, err = ecdsa.SignASN1(rand.Reader, k, h)
+			if err != nil || len(sig) == ecdsaFixedLen(k) {
+				break
+			}
+		}
 	default:
 		err = fmt.Errorf("sigkit: unsupported key %T", key)
 	}
